@@ -20,8 +20,8 @@ RULE = ("records over words of pairwise distinct symbols (by parametricity one "
         "of r>>k, (r>>k)>>j, r>>(k+j), r>>(m*n), (r>>k)<<k, r<<k is compared with "
         "the oracle: word = rot(word, total), every feature (matched by label) "
         "reads the same letters on the same strands in the same order (a part may be "
-        "split into consecutive pieces; a part covering the whole circle may start "
-        "anywhere), every track value stays "
+        "split into consecutive pieces; a part - or a whole feature - that walks once round "
+        "the whole circle may start anywhere), every track value stays "
         "on its symbol, metadata carried over. Exhaustive: n<=6, all k in "
         "[-2n-1, 2n+1], every single simple/past-the-end location x 3 strands x "
         "{source, misc_feature}; all 2-part joins for n<=4. Non-trivial = total "
@@ -82,7 +82,13 @@ def _verify(what, r, spec, word0, denot0, total):
         except ValueError as e:
             raise Violation("FEATURE-LOCATION", "%s: feature %r has illegal location %s (%s)" % (
                 what, label, f.location, e))
-        if not rec.same_reading(denot0[label], flat, n):
+        ok = rec.same_reading(denot0[label], flat, n)
+        if not ok and rec.closed_loop(denot0[label], word0):
+            # a feature that walks once round the whole circle has no
+            # distinguished start: any rotation of its reading is the same feature
+            b = [x for part, whole in denot0[label] for x in part]
+            ok = any(flat == b[r_:] + b[:r_] for r_ in range(len(b)))
+        if not ok:
             raise Violation(
                 "FEATURE-DENOTE" + (":source" if fs["type"] == "source" else ""),
                 "%s on %r (now %r): feature %r %s at %s reads %r, it read %r before" % (
